@@ -23,6 +23,7 @@ UNIT_PROPS = {
     "refs_verify": ["C20", "C01"],
     "fetch_run": ["C01", "C02"],
     "service_relay": ["C11"],
+    "fetch_ancestry": ["C02", "C01"],
 }
 
 CRYPTO_GROUP = ["signature_roundtrip", "public_key_roundtrip"]
@@ -53,18 +54,18 @@ PAIRED = {}
 
 PROPS = {
     "C01": {
-        "vx": ["fetch_run", "refs_verify"],
+        "vx": ["fetch_run", "fetch_ancestry", "refs_verify"],
         "kx": [],
         "technique": "Verus sink precondition on the extracted FetchState::run: repository::update may only see tips of namespaces that the validation oracle accepted (loop invariant over the validation loop, prune contract); Verus contract on SignedRefs::verify (signature by the namespace key over the canonical text, identity root names this repository)",
         "explanation": "FetchState::run (the whole validation loop with all four DelegateStatus arms, continue/early-return paths) is verified: at the single call that writes to the git repository, every non-blocked remote among the advertised signed-refs remotes that still has tips was reported valid by sigrefs::validate and its advertised rad/sigrefs is neither behind nor diverged from the stored one (delegate or not); FetchState::prune is proved to remove exactly that remote's tips/ids/sigrefs. SignedRefs::verify/verified accept only when the ed25519 check of the claimed key over Refs::canonical succeeds and refs/rad/root resolves to an identity document whose blob id is this repository's id.",
         "not_decided": "Cached::validate_remote (the ref-by-ref comparison) and DataRefs::prepare_updates are assumed oracles/stand-ins here; the iterator chains computing the delegate key set are stand-ins; the protocol stages (network, in-memory refdb) are arbitrary; that a namespace left out of `tips` is byte-for-byte untouched by libgit2 is outside any contract.",
     },
     "C02": {
-        "vx": ["fetch_run"],
+        "vx": ["fetch_run", "fetch_ancestry"],
         "kx": [],
         "technique": "Verus sink precondition on the extracted FetchState::run: repository::update requires |valid delegates| >= identity threshold (minus one if the local node is a delegate) and that no remote whose signed refs were found missing/invalid during this fetch is counted; ghost set threaded through the validation oracles",
         "explanation": "The threshold expression, the valid_delegates bookkeeping in every arm of the loop and the final gate are verified together: update is reachable only if the set counted has at least doc.threshold() - [local is delegate] members, is a subset of the delegates, and contains no remote for which load returned no sigrefs or validate returned failures. A Diverged delegate aborts with Err before any update; a Behind delegate is pruned.",
-        "not_decided": "Only the Success/Failed gate in run is decided; ensure_threshold in SpecialRefs::pre_validate, special_update's Abort/Reject policies in refs.rs and libgit2's ancestry computation are outside the unit (ancestry result is arbitrary). 'Leaves local storage unchanged' on Failed is decided as 'repository::update is not called'; Doc::threshold() >= 1 is proved in unit identity.",
+        "not_decided": "Only the Success/Failed gate in run is decided; ensure_threshold in SpecialRefs::pre_validate, special_update's Abort/Reject policies in refs.rs are outside the units. repository::ancestry is proved (unit fetch_ancestry) to classify exactly by libgit2's ahead/behind counts of the peeled commits (Equal / Ahead = strictly descends / Behind = rewind / Diverged = anything else); libgit2's graph_ahead_behind itself is assumed. 'Leaves local storage unchanged' on Failed is decided as 'repository::update is not called'; Doc::threshold() >= 1 is proved in unit identity.",
     },
     "C20": {
         "vx": ["refs_verify"],
